@@ -56,7 +56,9 @@ class ExternalImportFilter:
     def _is_internal_import(self, i: Import) -> bool:
         importee = i.importee()
 
-        return importee.startswith(self._root_module_name)
+        # compare whole dotted components: 'pkgx' is not internal to 'pkg', 'pkg' itself is
+        base_module = self._root_module_name.rstrip(".")
+        return importee == base_module or importee.startswith(base_module + ".")
 
     def _is_internal_or_retained_external_import(self, i: Import) -> bool:
         if self._is_internal_import(i):
